@@ -70,18 +70,25 @@ def maps(chk):
         if th and trial % 40 == 0:
             dims = {0: (128, 128), 1: (128, 128), 2: (64, 64)}
         ms = M.MapSet(*[M.Map(i, 0, width=wh[0], height=wh[1]) for i, wh in dims.items()])
-        for _k in range(rng.randrange(1, 6)):
-            mid = rng.randrange(3)
+        first_mid = rng.randrange(3)
+        for _k in range(rng.randrange(2, 7)):
+            mid = rng.randrange(3) if _k != 1 else first_mid
             mw, mh = dims[mid]
             w = rng.choice([1, 2, 7, mw, rng.randrange(1, mw + 1)])
             h = rng.choice([1, 2, 5, mh, rng.randrange(1, mh + 1)])
             w, h = min(w, mw), min(h, mh)
             ox = rng.choice([0, min(1, mw - w), mw - w, rng.randrange(0, mw - w + 1)])
             oz = rng.choice([0, min(1, mh - h), mh - h, rng.randrange(0, mh - h + 1)])
+            if _k == 0:
+                # every trial begins by painting one whole map with non-zero colours; the next patch goes to the same map, so
+                # that colour 0 (transparent) is written over something
+                mid = first_mid
+                mw, mh = dims[mid]
+                w, h, ox, oz = mw, mh, 0, 0
             npx = w * h
-            if rng.random() < 0.3 and w > 1:
+            if rng.random() < 0.3 and w > 1 and _k:
                 npx -= rng.randrange(1, w)              # an incomplete last row: pixel i still lands at (i mod width, i div width)
-            px = bytes(rng.randrange(256) for _ in range(npx))
+            px = bytes(rng.randrange(1, 256) if _k == 0 else rng.choice([0, 0, rng.randrange(256)]) for _ in range(npx))
             pk = M() if rng.random() < 0.4 else M(context=ConnectionContext(protocol_version=rng.choice([379, 451, 452, 453, 471, 757])))      # the tracker ignores the packet's version
             pk.map_id, pk.scale, pk.icons = mid, rng.randrange(5), []
             pk.width, pk.height, pk.offset, pk.pixels = w, h, (ox, oz), px
@@ -125,6 +132,30 @@ def maps(chk):
     mp = ms.maps_by_id.get(9)
     if mp is None or [mp.pixels[126 + 128 * 126], mp.pixels[127 + 128 * 126], mp.pixels[126 + 128 * 127], mp.pixels[127 + 128 * 127]] != [1, 2, 3, 4] or sum(mp.pixels) != 10:
         chk.violation('map', 'map:new', {'case': {'map': 9}}, 'a packet for an unknown map id does not create the map and patch it')
+    # a packet without pixel data (icons / flags only; width 0): for a known map it changes scale, icons and flags and no pixel;
+    # for an unknown map id it is the packet that makes the map known (blank), with its scale, icons and flags
+    for mid, known in ((9, True), (11, False), (12, False)):
+        pk = M() if mid != 12 else M(context=ConnectionContext(protocol_version=757))
+        icon = M.MapIcon(type=3, direction=5, location=(7, -7)) if hasattr(M, 'MapIcon') else None
+        pk.map_id, pk.scale, pk.icons, pk.width, pk.height, pk.offset, pk.pixels, pk.is_tracking_position, pk.is_locked = mid, 3, [icon] if icon else [], 0, 0, None, None, mid != 11, mid == 11
+        before = list(ms.maps_by_id[mid].pixels) if known else None
+        chk.count('map', ['pixel-less', mid, known], True)
+        try:
+            pk.apply_to_map_set(ms)
+            mp = ms.maps_by_id.get(mid)
+            if mp is None:
+                what = 'the map is not tracked afterwards'
+            elif (mp.scale, mp.is_tracking_position, mp.is_locked, len(mp.icons)) != (3, mid != 11, mid == 11, 1 if icon else 0):
+                what = 'scale / flags / icons are %r' % ((mp.scale, mp.is_tracking_position, mp.is_locked, len(mp.icons)),)
+            elif list(mp.pixels) != (before if known else [0] * (128 * 128)):
+                what = 'the pixels changed' if known else 'the new map is not blank 128 x 128'
+            else:
+                what = None
+        except Exception as e:
+            what = 'raised %s' % exn_name(e)
+        if what:
+            chk.violation('map', 'map:pixel-less:%d' % mid, {'case': {'map': mid, 'known_before': known}, 'observed': what},
+                          'a map packet without pixel data for %s map id %d: %s' % ('the known' if known else 'an unknown', mid, what))
     res = run_model(reqs)
     for (case, got, fields, exp_fields), r in zip(obs, res):
         chk.count('map', case, True)
